@@ -169,3 +169,68 @@ func (x *g) genSecurityGadgetService() {
 	x.s.Services = append(x.s.Services, &spec.Service{Name: "secgadgets", BasePath: "/secgadgets", Methods: []*spec.Method{list, create, pair, flow}})
 	x.s.AddFeature("security-gadget-service", "requirement-seen-scheme-then-new-scheme", "scheme-jwt", "scheme-apikey", "scheme-oauth2", "oauth2-without-scopes", "method-security")
 }
+
+// genServerGadget gives a share of the generation-only designs (C01, C09: never the runtime profiles, whose drivers
+// do not use the example mains) explicit Server declarations: the services listed in ANOTHER order than they are
+// declared in, a second server listing a subset, and — for half of them — two extra services that each own a
+// MultipartRequest endpoint, so that the per-server plumbing of the example mains (one encoder / decoder function
+// per multipart endpoint, passed positionally) is exercised with an order that differs from the declaration order.
+func (x *g) genServerGadget() {
+	gr := x.r.Derive(0x5e7fe7)
+	if !gr.Chance(1, 3) {
+		return
+	}
+	str := func() *spec.Type { return &spec.Type{Kind: spec.String} }
+	if gr.Chance(1, 2) {
+		nosec := len(x.s.API.Security) > 0
+		for _, n := range []string{"mpfirst", "mpsecond"} {
+			dup := false
+			for _, sv := range x.s.Services {
+				if sv.Name == n {
+					dup = true
+				}
+			}
+			if dup {
+				continue
+			}
+			m := &spec.Method{Name: "upload", NoSec: nosec,
+				Payload: &spec.Attr{Type: &spec.Type{Kind: spec.Object, Attrs: []*spec.Attr{{Name: "title", Type: str()}, {Name: "part", Type: &spec.Type{Kind: spec.Bytes}}}, Required: []string{"title"}}},
+				Result:  &spec.Attr{Type: str()},
+				HTTP:    &spec.HTTP{Routes: []spec.Route{{Verb: "POST", Path: "/upload"}}, Multipart: true}}
+			x.s.Services = append(x.s.Services, &spec.Service{Name: n, BasePath: "/" + n, Methods: []*spec.Method{m}})
+		}
+		x.s.AddFeature("multipart-request", "server-gadget-multipart-services")
+	}
+	var names []string
+	grpc := false
+	for _, sv := range x.s.Services {
+		names = append(names, sv.Name)
+		grpc = grpc || sv.GRPC
+	}
+	// reversed declaration order: differs from it as soon as there are two services
+	rev := make([]string, len(names))
+	for i, n := range names {
+		rev[len(names)-1-i] = n
+	}
+	uris := []string{"http://localhost:8000"}
+	if grpc {
+		uris = append(uris, "grpc://localhost:8080")
+	}
+	x.s.API.Servers = append(x.s.API.Servers, &spec.Server{Name: "front", Services: rev, Hosts: []spec.Host{{Name: "dev", URIs: uris}}})
+	x.s.AddFeature("server-declared")
+	if len(names) > 1 {
+		x.s.AddFeature("server-services-reordered")
+	}
+	if len(names) > 1 && gr.Chance(1, 2) {
+		// a second server for the last declared service alone
+		last := names[len(names)-1]
+		u2 := []string{"http://localhost:8100"}
+		for _, sv := range x.s.Services {
+			if sv.Name == last && sv.GRPC {
+				u2 = append(u2, "grpc://localhost:8180")
+			}
+		}
+		x.s.API.Servers = append(x.s.API.Servers, &spec.Server{Name: "side", Services: []string{last}, Hosts: []spec.Host{{Name: "dev", URIs: u2}}})
+		x.s.AddFeature("server-second")
+	}
+}
